@@ -63,10 +63,6 @@ package keyvalue
 //@   ensures forall k string :: old(kvput(k)) ==> kvput(k)
 //@ func peerChannelKey
 //@   trusted
-//@ func (*PersistRestorer).paramsForChan
-//@   trusted
-//@   requires pr != nil
-//@   ensures len(result0.Parts) >= 0
 //@ func (*PersistRestorer).channelPeers
 //@   trusted
 //@   requires pr != nil
@@ -83,15 +79,26 @@ package keyvalue
 //@     invariant kvput("parent") && kvput("peers")
 
 // ChannelRemoved deletes every key that any persister method writes for the channel: nothing of a removed channel stays behind.
+// storedParts(id): the number of participants in the stored parameters of channel id - the n with which Staged and SigAdded
+// name the channel's signature slots (sigKeyStr(i, n)). paramsForChan reads and decodes the stored parameters (store reads and
+// the decoder are abstracted: trusted).
+//@ ghost func storedParts(id channel.ID) int
+//@ func (*PersistRestorer).paramsForChan
+//@   trusted
+//@   requires pr != nil
+//@   ensures result1 == nil ==> len(result0.Parts) == storedParts(id) && storedParts(id) >= 0
 //@ func (*PersistRestorer).ChannelRemoved
 //@   requires pr != nil
 //@   modifies *
+//@   callsite sigKeys : numParts == storedParts(id)
 //@   ensures result == nil ==> kvdel("current") && kvdel("index") && kvdel("params") && kvdel("phase") && kvdel("staging:state") && kvdel("parent") && kvdel("peers")
-//@   ensures result == nil ==> exists n int :: n >= 0 && forall i int :: 0 <= i && i < n ==> kvdel(sigKeyStr(i, n))
+//@   ensures result == nil ==> forall i int :: 0 <= i && i < storedParts(id) ==> kvdel(sigKeyStr(i, storedParts(id)))
 //@   loop 1
 //@     invariant forall k int :: 0 <= k && k < $i ==> kvdel(keys[k])
+//@     invariant len(keys) == 7 + storedParts(id) && allSigKeys(keys, 7, storedParts(id))
 //@   loop 2
 //@     invariant forall k int :: 0 <= k && k < len(keys) ==> kvdel(keys[k])
+//@     invariant len(keys) == 7 + storedParts(id) && allSigKeys(keys, 7, storedParts(id))
 
 // PhaseChanged stores the phase (one key, written directly).
 //@ func (*PersistRestorer).PhaseChanged
